@@ -121,7 +121,55 @@ H("parse_qlt", src="h_large_tlv.c", props=_LT, enforce=["parseQueryLargeTlv"], u
   bounded="MTU fixed to 576; icon / friendly name of at most 48 bytes in the platform model")
 H("c08_reassembly", src="h_large_tlv.c", props=["C08"], unwind=8, defines=["V_LIST_MAX=3"])
 
+# ---------------------------------------------------------------- lltdBlock.c: dispatcher
+H("parse_frame", src="h_parse_frame.c", props=["C05", "C09", "C17", "C03", "C02", "C19", "C18", "C01", "C07"],
+  replace=["answerHello", "parseEmit", "parseProbe", "parseQuery", "parseQueryLargeTlv"],
+  unwind=24, unwindset={"v_build_state.0": 50, "lltd_state_for_iface.0": 4, "lltd_state_clear_seen_probes.0": 8},
+  defines=["V_MTU_FIXED=576"], defines_quick=["V_LIST_MAX=3"], defines_thorough=["V_LIST_MAX=5"],
+  must_reach=["end", "absent-fail", "absent-ok", "foreign", "accept", "reject", "reset"], shards=8,
+  bounded="records of at most 2 interfaces in the global list; observation lists of at most 3 (thorough 5) nodes; MTU fixed to 576")
+
+# ---------------------------------------------------------------- Hello: writers and assembly (C02 / C03 / C04)
+H("tlv_writers", src="h_tlv.c", props=["C04", "C02", "C01", "C17"], unwind=8,
+  enforce=["setHostIdTLV", "setCharacteristicsTLV", "setPhysicalMediumTLV", "setWirelessTLV", "setBSSIDTLV", "setSSIDTLV", "setIPv4TLV",
+           "setIPv6TLV", "setWifiMaxRateTLV", "setPerfCounterTLV", "setLinkSpeedTLV", "setWifiRssiTLV", "setIconImageTLV", "setHostnameTLV",
+           "setSupportInfoTLV", "setFriendlyNameTLV", "setHardwareIdTLV", "setQosCharacteristicsTLV"],
+  unwindset={"h_tlv_writers.0": 162, "h_tlv_writers.1": 162, "v_copy_name.0": 42, "lltd_port_get_hw_id.0": 66, "lltd_port_get_ipv6_address.0": 18, "lltd_port_get_bssid.0": 8}, shards=8, must_reach=["end", "hostname", "rssi"])
+H("wire_headers", src="h_tlv.c", props=["C02", "C03", "C01", "C11"], unwind=8, unwindset={"h_wire_headers.0": 66, "h_wire_headers.1": 66})
+_CHAIN = ['setHostIdTLV', 'setCharacteristicsTLV', 'setPhysicalMediumTLV', 'setIPv4TLV', 'setIPv6TLV', 'setPerfCounterTLV', 'setLinkSpeedTLV', 'setHostnameTLV', 'setWirelessTLV', 'setBSSIDTLV', 'setSSIDTLV', 'setWifiMaxRateTLV', 'setWifiRssiTLV', 'setQosCharacteristicsTLV', 'setIconImageTLV', 'setFriendlyNameTLV', 'setEndOfPropertyTLV']
+for w in (0, 1):
+    H("answer_hello_wifi%d" % w, src="h_hello.c", fn="h_answer_hello", props=["C02", "C03", "C04", "C01", "C18", "C19", "C17"],
+      enforce=["answerHello"], replace=["%s/%s__chain" % (f, f) for f in _CHAIN] + ["setAPAssociationTableTLV", "setRepeaterAPLineageTLV", "setRepeaterAPTableTLV"],
+      unwind=8, unwindset={"v_build_state.0": 50},
+      defines=["V_WIFI=%d" % w, "V_TXCAP=256", "V_LIST_MAX=3"], must_reach=["end", "tx"], timeout=1800,
+      bounded="transmit buffer modelled with a constant capacity of 256 bytes (truncated-object abstraction, DESIGN 3.4); property list checked compositionally through the writers' chain contracts")
+
+# ---------------------------------------------------------------- platform layer / embedded entry point / closure
+import closure
+H("linux_getters", src="h_linux_port.c", props=["C04"], port_model=False, unwind=8,
+  enforce=["lltd_port_get_mtu", "lltd_port_get_if_type", "lltd_port_get_link_speed_100bps"],
+  cc_flags=["-DLINUX"], must_reach=["end", "ok"], no_native=True)
+H("esp32_frame", src="h_esp32.c", props=["C01"], unwind=8,
+  unwindset={"h_esp32_frame.0": 42, "h_esp32_frame.1": 42, "h_esp32_frame.2": 42, "switch_state_mapping.0": 130,
+             "switch_state_session.0": 130, "switch_state_enumeration.0": 130},
+  must_reach=["end", "handled", "short"], no_native=True,
+  bounded="told lengths 0..40 (the header guard is at 32); the buffer object has exactly the told length")
+
+_FRAME_PATH = ["parse_frame", "answer_hello_wifi0", "answer_hello_wifi1", "send_probe", "parse_emit", "parse_emit_strict",
+               "parse_probe", "parse_query", "parse_query_mtu60", "parse_query_mtu80", "send_ltr", "parse_qlt"]
 PROPS = {
+    "C01": {"harnesses": _FRAME_PATH + ["tlv_writers", "wire_headers", "derive", "derive_oob", "esp32_frame", "map_step", "sess_step", "enum_step", "tick"]},
+    "C02": {"harnesses": _FRAME_PATH + ["tlv_writers", "wire_headers"]},
+    "C09": {"harnesses": ["parse_frame", "parse_probe", "parse_query", "send_ltr", "parse_qlt", "send_probe", "answer_hello_wifi0"]},
+    "C17": {"harnesses": ["parse_frame", "send_probe", "parse_probe", "parse_query", "parse_qlt", "answer_hello_wifi0", "tlv_writers"],
+            "extra_steps": [closure.core_globals]},
+    "C19": {"harnesses": _FRAME_PATH + ["ctor_mapping", "ctor_enum", "ctor_session", "tab_create"]},
+    "C20": {"harnesses": [], "extra_steps": [closure.core_closure], "level": "other",
+            "explanation": "closure condition of the modular proof: the linked core's undefined functions are exactly port-API functions (goto level and, for every compiler x optimisation x hosted/freestanding setting of the property, object level); the repository's own lint rule; no system header beyond the freestanding set",
+            "technique": "closure check of the contract proof: undefined-function set of the linked core (goto-instrument, nm over the stated compiler matrix) compared with the functions declared in lltdPort.h; DFCC additionally fails any call to a function with neither body nor contract"},
+    "C04": {"harnesses": ["tlv_writers", "answer_hello_wifi0", "answer_hello_wifi1", "linux_getters"]},
+    "C03": {"harnesses": ["answer_hello_wifi0", "answer_hello_wifi1", "wire_headers", "parse_frame"]},
+    "C05": {"harnesses": ["parse_frame"]},
     "C08": {"harnesses": ["send_ltr", "parse_qlt", "c08_reassembly"]},
     "C07": {"harnesses": ["parse_probe", "parse_query", "parse_query_mtu60", "parse_query_mtu80"]},
     "C06": {"harnesses": ["send_probe", "parse_emit", "parse_emit_strict", "parse_emit_1500"]},
@@ -131,7 +179,7 @@ PROPS = {
     "C14": {"harnesses": ["map_step", "tick", "mt_reset_charge", "mt_on_charge", "mt_check_charge", "mt_check_inactive", "mt_reset_inactive"]},
     "C12": {"harnesses": ["tick", "enum_step"]},
     "C15": {"harnesses": ["sess_step"]},
-    "C18": {"harnesses": ["ctor_mapping", "ctor_enum", "ctor_session", "tab_create"]},
+    "C18": {"harnesses": ["ctor_mapping", "ctor_enum", "ctor_session", "tab_create"] + _FRAME_PATH},
     "C13": {
         "harnesses": ["band_update", "band_choose", "band_dohello", "band_heard", "band_init", "c13_monotone", "tick"],
         "explanation": "band_* functions enforced against contracts whose postconditions are the closed forms of "
